@@ -1,10 +1,11 @@
 (* C11 - Exact arithmetic: outcomes invariant under vote scaling, even beyond 2^53.
-   Property theorems only.  Models: Model/GetNBest.v, Model/HighestAverages.v, Model/Condorcet.v;
-   proofs: Proofs/Scale_proofs.v.  All numbers are unbounded Z / Q: the statements quantify over
+   Property theorems only.  Models: Model/GetNBest.v, Model/HighestAverages.v, Model/Condorcet.v,
+   Model/QuotaDistributor.v; proofs: Proofs/Scale_proofs.v, Proofs/Minimax_proofs.v, Proofs/LRScale_proofs.v.  All numbers are unbounded Z / Q: the statements quantify over
    every positive scale factor and every magnitude (10^30 and 2^53 are not special). *)
 From Coq Require Import ZArith QArith List Bool.
 From VL Require Import Prelude.PyDict Model.GetNBest Model.HighestAverages Model.Condorcet
-     Proofs.GetNBest_proofs Proofs.QOrd Proofs.Scale_proofs Proofs.Minimax_proofs.
+     Proofs.GetNBest_proofs Proofs.QOrd Proofs.Scale_proofs Proofs.Minimax_proofs Proofs.LRScale_proofs
+     Model.Quota Model.QuotaDistributor.
 Import ListNotations.
 
 (* plurality / every rule that ends in get_n_best of exact totals *)
@@ -30,6 +31,27 @@ Proof. intros k v ties Hk. exact (smith_schwartz_scale k Hk v ties). Qed.
 
 Theorem C11_scale_minimax : forall (k : Z) s v n, (0 < k)%Z -> minimax s (scalez k v) n = minimax s v n.
 Proof. intros k s v n Hk. exact (minimax_scale k Hk s v n). Qed.
+
+(* the quota family with a homogeneous quota (Hare 1, Hagenbach-Bischoff 4, Imperiali 7; the rounded quotas are genuinely not
+   scale-free): QuotaDistributor with every overshoot policy, the recursive cap branch and the over-award subtraction included,
+   and LargestRemainder with its remainder ranking *)
+Theorem C11_scale_quota_distributor : forall (k : Q) (i : Z) accept_equal pol (votes : list (C * Q)) n prev caps,
+  (0 < k)%Q -> homogeneous_quota i = true ->
+  qd_evaluate (quota_fn (QNamed i)) accept_equal pol (scaleq k votes) n prev caps
+  = qd_evaluate (quota_fn (QNamed i)) accept_equal pol votes n prev caps.
+Proof.
+  intros k i ae pol votes n prev caps Hk Hi.
+  exact (qd_evaluate_rel k Hk _ ae pol (quota_fn_homog k i Hi) votes _ n prev caps (vrel_scale k votes)).
+Qed.
+
+Theorem C11_scale_largest_remainder : forall (k : Q) (i : Z) accept_equal pol (votes : list (C * Q)) n prev caps,
+  (0 < k)%Q -> homogeneous_quota i = true ->
+  lr_evaluate (quota_fn (QNamed i)) accept_equal pol (scaleq k votes) n prev caps
+  = lr_evaluate (quota_fn (QNamed i)) accept_equal pol votes n prev caps.
+Proof.
+  intros k i ae pol votes n prev caps Hk Hi.
+  exact (lr_evaluate_rel k Hk _ ae pol (quota_fn_homog k i Hi) votes _ n prev caps (vrel_scale k votes)).
+Qed.
 
 (* totals that differ - by one vote in 10^30 or by anything else - are never reported as tied,
    and equal rational totals (whatever their representation: 1/2 = 2/4) always are tied together *)
@@ -74,5 +96,7 @@ Print Assumptions C11_scale_condorcet_winner.
 Print Assumptions C11_scale_copeland.
 Print Assumptions C11_scale_smith_schwartz.
 Print Assumptions C11_scale_minimax.
+Print Assumptions C11_scale_quota_distributor.
+Print Assumptions C11_scale_largest_remainder.
 Print Assumptions C11_tie_exact.
 Print Assumptions C11_one_vote_apart.
